@@ -33,21 +33,22 @@ Definition known_keywords : list bytes :=
 Definition known_option_names : list bytes :=
   [on_ndots; on_retrans; on_timeout; on_retry; on_attempts; on_rotate; on_usevc1; on_usevc2].
 
-Definition is_number (v : bytes) : bool := negb (bytes_eqb v []) && forallb isdigit v.
+Definition is_number (v : bytes) : bool := negb (bytes_eqb v []) && forallb isdigit v && (length v <=? 9)%nat.
 Definition is_positive_number (v : bytes) : bool := is_number v && negb (forallb (N.eqb 48) v).
 
-(* name[:value] *)
-Definition opt_name (t : bytes) : bytes := fst (span (fun c => negb (c =? ch_colon)) t).
+(* name[:value], both without surrounding blanks *)
+Definition opt_name (t : bytes) : bytes := rtrim (ltrim (fst (span (fun c => negb (c =? ch_colon)) t))).
 Definition opt_value (t : bytes) : option bytes :=
   match snd (span (fun c => negb (c =? ch_colon)) t) with
   | [] => None
-  | _ :: v => Some v
+  | _ :: v => Some (rtrim (ltrim v))
   end.
 
 (* junk option token by the grammar *)
 Definition junk_option (t : bytes) : bool :=
   let n := opt_name t in
-  if negb (existsb (bytes_eqb n) known_option_names) then true
+  if bytes_eqb n [] then false                      (* ":x" is not classified *)
+  else if negb (existsb (bytes_eqb n) known_option_names) then true
   else if bytes_eqb n on_ndots then
     match opt_value t with Some v => negb (is_number v) | None => true end
   else if bytes_eqb n on_timeout || bytes_eqb n on_retrans || bytes_eqb n on_attempts || bytes_eqb n on_retry then
@@ -101,7 +102,7 @@ Definition junk_class_resolv (l : bytes) : option jclass :=
             if forallb junk_option_plain ts then Some JOptionsPlain
             else if forallb junk_option ts then Some JOptionsNumeric else None
           else if bytes_eqb k k_search || bytes_eqb k k_domain then
-            match tokens s_sep_domains a with [] => Some JSearchEmpty | _ => None end
+            match buf_split s_sep_domains false true true 0 a with [] => Some JSearchEmpty | _ => None end
           else (* lookup / hostresorder *)
             if forallb (fun v => match lookup_char v with None => true | Some _ => false end)
                        (buf_split s_sep_ws true false false 0 (rest_of l)) then Some JLookupNoWord else None
@@ -119,7 +120,7 @@ Definition junk_db_line (delim : N) (seps : bytes) (raw : bytes) : bool :=
   if mem ch_nl raw then false else
   match rtrim (ltrim raw) with
   | [] => true
-  | c :: _ as l =>
+  | (c :: _) as l =>
     if c =? ch_hash then true
     else
       let (db, r) := span (fun c => negb (c =? delim)) l in
@@ -134,7 +135,10 @@ Definition junk_db_line (delim : N) (seps : bytes) (raw : bytes) : bool :=
 
 (* environment: LOCALDOMAIN is a list of names, RES_OPTIONS a list of option tokens *)
 Definition junk_localdomain (v : bytes) : bool :=
-  negb (forallb isprint v) || match tokens s_sep_domains v with [] => true | _ => false end.
+  match buf_split s_sep_domains false true true 0 v with
+  | [] => true                                                  (* names nothing *)
+  | names => negb (forallb (forallb isprint) names)            (* a name with bytes outside printable ASCII *)
+  end.
 Definition junk_res_options (v : bytes) : bool :=
   forallb junk_option (buf_split s_sep_ws true false false 0 v).
 
